@@ -14,19 +14,109 @@ def budget(ctx, quick, thorough):
     return thorough if ctx.tier in ("thorough", "escalate") else quick
 
 
+def cached(path):
+    return os.path.exists(path) and os.path.getsize(path) > 0
+
+
 # ------------------------------------------------------------------ topics (C05, C30, C32)
 
 def unit_topics(ctx):
-    obs = os.path.join(ctx.work, "topics.obs")
-    n = budget(ctx, 300, 6000)
-    rc, out, _ = core.run("%s -seed %d -n %d -repo %s > %s" % (ctx.bin("drv_topics"), ctx.seed, n, core.REPO, obs))
-    if rc != 0:
-        return {"lines": [], "error": "drv_topics failed: " + out}
-    rc, lines = sh_lines("%s chk-topics %s" % (core.DRIVER, obs))
-    if rc != 0:
-        return {"lines": [], "error": "chk-topics failed: " + "\n".join(lines[-20:])}
-    return {"lines": lines, "inputs": obs}
+    d = core.shared_dir("topics", ctx.tier, ctx.seed)
+    res = os.path.join(d, "topics.res")
+    obs = os.path.join(d, "topics.obs")
+    if not cached(res):
+        n = budget(ctx, 300, 6000)
+        rc, out, _ = core.run("%s -seed %d -n %d -repo %s > %s" % (ctx.bin("drv_topics"), ctx.seed, n, core.REPO, obs))
+        if rc != 0:
+            return {"lines": [], "error": "drv_topics failed: " + out}
+        rc, out, _ = core.run("%s chk-topics %s > %s.tmp && mv %s.tmp %s" % (core.DRIVER, obs, res, res, res))
+        if rc != 0:
+            return {"lines": [], "error": "chk-topics failed: " + out[-2000:]}
+    return {"lines": open(res).read().splitlines(), "inputs": obs}
 
+
+# ------------------------------------------------------------------ codec (C20, C21, C22)
+
+def unit_codec(ctx):
+    d = core.shared_dir("codec", ctx.tier, ctx.seed)
+    res = os.path.join(d, "codec.res")
+    obs = os.path.join(d, "codec.obs")
+    if not cached(res):
+        n = budget(ctx, 3000, 60000)
+        len3 = budget(ctx, 0, 16)
+        corpus = os.path.join(core.VERIF, "corpus", "codec.txt")
+        rc, out, _ = core.run("%s -seed %d -n %d -len3 %d -corpus %s > %s" % (
+            ctx.bin("drv_codec"), ctx.seed, n, len3, corpus, obs))
+        if rc != 0:
+            return {"lines": [], "error": "drv_codec failed: " + out[-2000:]}
+        rc, out, _ = core.run("%s chk-codec %s > %s.tmp && mv %s.tmp %s" % (core.DRIVER, obs, res, res, res))
+        if rc != 0:
+            return {"lines": [], "error": "chk-codec failed: " + out[-2000:]}
+    return {"lines": open(res).read().splitlines(), "inputs": obs}
+
+
+# ------------------------------------------------------------------ gateway sessions
+
+def run_gw_driver(ctx, hist, trace):
+    """Run drv_gw.test over a history file; a crash (panic in a gateway goroutine) kills the
+    process, so restart after the history that crashed and record the crash in the trace."""
+    start = 0
+    open(trace, "w").close()
+    for _ in range(200):
+        rc, out, _ = core.run("%s -hist %s -out %s -start %d" % (ctx.bin("drv_gw.test"), hist, trace, start),
+                              timeout=3000)
+        if rc == 0:
+            return None
+        # find the last history that was started
+        last = None
+        with open(trace) as f:
+            for line in f:
+                if line.startswith("H "):
+                    last = int(line.split()[1])
+        if last is None or last < start:
+            return "drv_gw failed before running any history: " + out[-2000:]
+        msg = "unknown"
+        for ln in out.splitlines():
+            if ln.startswith("panic:") or "fatal error" in ln:
+                msg = ln.strip().replace(" ", "_")
+                break
+        with open(trace, "a") as f:
+            f.write("X PANIC process-crashed:%s\nEND\n" % msg)
+        start = last + 1
+    return "drv_gw crashed too many times"
+
+
+def unit_gw(ctx):
+    d = core.shared_dir("gw", ctx.tier, ctx.seed)
+    res = os.path.join(d, "gw.res")
+    hist = os.path.join(d, "gw.hist")
+    trace = os.path.join(d, "gw.impl")
+    if not cached(res):
+        n = budget(ctx, 3000, 60000)
+        corpus = os.path.join(core.VERIF, "corpus", "gw.hist")
+        rc, out, _ = core.run("%s gen-gw %d %d %s.gen" % (core.DRIVER, ctx.seed, n, hist))
+        if rc != 0:
+            return {"lines": [], "error": "gen-gw failed: " + out[-2000:]}
+        # corpus histories first (indices from 1000000 up), then the generated ones
+        core.run("cat %s %s.gen > %s 2>/dev/null || cp %s.gen %s" % (corpus, hist, hist, hist, hist))
+        err = run_gw_driver(ctx, hist, trace)
+        if err:
+            return {"lines": [], "error": err}
+        rc, out, _ = core.run("%s cmp-gw %s %s > %s.tmp && mv %s.tmp %s" % (core.DRIVER, hist, trace, res, res, res))
+        if rc != 0:
+            return {"lines": [], "error": "cmp-gw failed: " + out[-2000:]}
+    return {"lines": open(res).read().splitlines(), "inputs": hist}
+
+
+GW_RULE = ("model-guided random walks of one gateway session (ocaml/gen_gw.ml: 4 profiles - general, connect/auth "
+           "exchange, sleep cycles, broker publishes with retries; client datagrams, broker packets, virtual-time "
+           "advances around timer deadlines, every termination cause), executed on the real handler1 under "
+           "testing/synctest with in-memory connections and compared output-by-output (bytes and virtual ms) with the "
+           "extracted model; an event is non-trivial when the implementation produced at least one output for it, "
+           "distinct by (configuration, event, outputs)")
+GW_ASSUME = ["event-atomic driving: each datagram/packet/timer is handled to completion before the next (synctest.Wait)",
+             "paho MQTT encoding/decoding, errgroup, context, sync primitives and Go timers behave as documented",
+             "histories in which two timers (or a timer and an injected event) fall on the same virtual instant are not generated"]
 
 PROPS = {
     "C05": {
@@ -38,5 +128,37 @@ PROPS = {
                 "lookup; GetTopicID asked 6 times per query so several map iteration orders are seen; an "
                 "observation is non-trivial when the lookup returns a value",
         "assumptions": ["Go map lookup semantics; yaml.v3 decoding (exercised through topics.yaml, not modelled)"],
+    },
+    "C20": {
+        "theorems": ["C20_decoding_never_panics", "C20_no_panic_site"],
+        "drivers": ["drv_codec"],
+        "units": [Unit("drv_codec", unit_codec)],
+        "mismatch_kinds": [r"decode class", r"driver error", r"bad D line"],
+        "rule": "all datagrams of length 0-2 exhaustively (65 793); thorough: 3-byte datagrams with every 16th third byte; "
+                "structural stream (type bytes x both header forms x body lengths 0-9 x flag bytes, AUTH method-length "
+                "bytes 0-255 x body sizes, long-form headers announcing 0-300); encodings of constructor-built packets "
+                "and their mutations (bit flips, truncation, extension); random strings up to 8192 B; the corpus of "
+                "former crashers runs first; non-trivial = decodes successfully",
+        "assumptions": ["ReadPacket is driven through a bytes.Reader (one Read = one datagram) under recover()"],
+    },
+    "C21": {
+        "theorems": ["C21_round_trip", "C21_short_topic_bijection", "C21_checker_sound"],
+        "drivers": ["drv_codec"],
+        "units": [Unit("drv_codec", unit_codec)],
+        "mismatch_kinds": [r"^pack", r"decode\(pack\)", r"ShortTopic", r"chk_short", r"driver error", r"pack failed"],
+        "rule": "packets of all 28 types built through the exported constructors/setters with boundary and random field "
+                "values (u8/u16 pools, lengths 0-9, 246-261, 1000, 7160-7168, oversize), Pack compared byte-for-byte with "
+                "the model, ReadPacket of the result compared with the original; all 65 536 short topic IDs; "
+                "non-trivial = the packet satisfies wf_pkt (legal ranges)",
+        "assumptions": ["packets are built by the exported constructors and setters, as library users do"],
+    },
+    "C14": {
+        "theorems": ["C14_step", "C14_histories", "C14_checker_sound"],
+        "drivers": ["drv_gw.test"],
+        "units": [Unit("drv_gw", unit_gw)],
+        "mismatch_kinds": [r"MQ:DISCONNECT", r"^(CLOSE|SNCLOSE|END|TIME)", r"PANIC", r"MISSING-", r"EXTRA (CLOSE|END)",
+                           r"MISSING (CLOSE|END)"],
+        "rule": GW_RULE,
+        "assumptions": GW_ASSUME,
     },
 }
